@@ -64,7 +64,7 @@ def run_programs(prop, conf, tier, seed, shard, nshards, budget, col, maxprog=No
     from pwv.run import Runner
     from pwv.gen import Gen
     from pwv import instrument
-    from pwv.world import Malformed, blocks
+    from pwv.world import Malformed, blocks, TooBig
 
     pidx = int(prop[1:])
     t0 = time.time()
@@ -114,6 +114,8 @@ def run_programs(prop, conf, tier, seed, shard, nshards, budget, col, maxprog=No
                     vs = oracle(rec)
                 except Malformed as e:
                     vs = [{"prop": prop, "status": "inconclusive", "mode": "oracle-malformed", "detail": str(e), "cell": None, "sig": {}}]
+                except TooBig as e:
+                    vs = [{"prop": prop, "status": "inconclusive", "mode": "too-big", "detail": str(e), "cell": None, "sig": {}}]
                 except Exception as e:  # noqa: BLE001
                     import traceback as _tb
                     col.extra.setdefault("harness_errors", []).append(_tb.format_exc()[-600:])
@@ -127,7 +129,10 @@ def run_programs(prop, conf, tier, seed, shard, nshards, budget, col, maxprog=No
                     rec2 = runner.step(st2)
                     col.steps += 1
                     for oracle in conf["oracles"]:
-                        col.add(oracle(rec2), replay)
+                        try:
+                            col.add(oracle(rec2), replay)
+                        except (Malformed, TooBig):
+                            col.incon["oracle-malformed"] = col.incon.get("oracle-malformed", 0) + 1
             try:
                 blocks(rec.post)
             except Malformed:
